@@ -61,23 +61,40 @@ func main() {
 			blen = rng.Pick(r, []int{0, 3, 4, 5, 7, 8, 9})
 		}
 		buf := r.Bytes(blen)
+		// half of the buffers are windows of a larger record (spare capacity on both sides):
+		// the length decides, not the capacity, and nothing outside the window may change
+		var record, recordBefore []byte
+		if r.Intn(2) == 0 {
+			record = r.Bytes(blen + 20)
+			copy(record[6:], buf)
+			buf = record[6 : 6+blen]
+			recordBefore = append([]byte{}, record...)
+		}
+		outside := func() string {
+			for j := range record {
+				if (j < 6 || j >= 6+blen) && record[j] != recordBefore[j] {
+					return " CLOBBERED-OUTSIDE-THE-BUFFER " + hx(record)
+				}
+			}
+			return ""
+		}
 		switch r.Intn(4) {
 		case 0:
 			before := hx(buf)
 			p := try(func() { machine.UInt64Put(buf, v) })
 			if p {
-				fmt.Fprintf(w, "put64 %s %d -> PANIC %s\n", before, v, hx(buf))
+				fmt.Fprintf(w, "put64 %s %d -> PANIC %s%s\n", before, v, hx(buf), outside())
 			} else {
-				fmt.Fprintf(w, "put64 %s %d -> %s\n", before, v, hx(buf))
+				fmt.Fprintf(w, "put64 %s %d -> %s%s\n", before, v, hx(buf), outside())
 			}
 		case 1:
 			before := hx(buf)
 			v32 := uint32(v)
 			p := try(func() { machine.UInt32Put(buf, v32) })
 			if p {
-				fmt.Fprintf(w, "put32 %s %d -> PANIC %s\n", before, v32, hx(buf))
+				fmt.Fprintf(w, "put32 %s %d -> PANIC %s%s\n", before, v32, hx(buf), outside())
 			} else {
-				fmt.Fprintf(w, "put32 %s %d -> %s\n", before, v32, hx(buf))
+				fmt.Fprintf(w, "put32 %s %d -> %s%s\n", before, v32, hx(buf), outside())
 			}
 		case 2:
 			var res uint64
